@@ -981,13 +981,15 @@ func first(a, _ []byte) []byte { return a }
 //@   loop 5 (i)
 //@     invariant stacksOK(q, depths) && 0 - 1 <= i && i <= 255
 
-//@ func rangeScan$1@unsigned
-//@   opt kind unsigned
+// The signed and float trees instantiate rangeScan with *unsignedLeafNode as well: the cast is
+// justified by the identical field lists of the generated leaf structs (one layout class).
+//@ func rangeScan$1@{unsigned,signed,float}
+//@   opt kind $KIND
 //@   opt leaf unsignedLeafNode
 //@   opt casts on
 //@   opt extent on
 //@   captures root.pointer != nil
-//@   requires liveRef(root) && HeapOK_unsigned() && LinkedLive() && leafT() == typeid(unsignedLeafNode)
+//@   requires liveRef(root) && HeapOK_$KIND() && LinkedLive() && leafT() == typeid($KINDLeafNode)
 //@   ensures[pure] frame()
 //@   loop 1 (q)
 //@     invariant stacksOK(q, depths)
@@ -1142,4 +1144,26 @@ func first(a, _ []byte) []byte { return a }
 //@   opt casts on
 //@   opt extent on
 //@   requires WF1in_collation(t)
+//@   ensures[pure] frame()
+
+//@ func (*{unsigned,signed,float}SortedTree[K,V]).Range
+//@   opt kind $KIND
+//@   opt casts on
+//@   opt extent on
+//@   requires WF1in_$KIND(t)
+//@   ensures[pure] frame()
+
+// the single-key sequence returned for start == end
+//@ func (*{unsigned,signed,float}SortedTree[K,V]).Range$2
+//@   opt kind $KIND
+//@   opt casts on
+//@   opt extent on
+//@   requires WF1in_$KIND(t)
+//@   ensures[pure] frame()
+
+//@ func (*compoundSortedTree[K,V]).Range
+//@   opt kind compound
+//@   opt casts on
+//@   opt extent on
+//@   requires WF1in_compound(t)
 //@   ensures[pure] frame()
